@@ -85,7 +85,8 @@ PIPE_HEADER = ["From Coq Require Import List NArith ZArith Bool Floats.",
                "From Pcfg Require Import Str TextFile Counters IoCorr Pipeline PipelineCorr.",
                "Import ListNotations.", "Open Scope float_scope.", "Open Scope N_scope.", ""]
 DIAG = {1: "one side has no loadable ruleset", 2: "the loaded grammar (terminal groups) differs",
-        3: "the base-structure list differs", 4: "the multiset of guesses differs"}
+        3: "the base-structure list differs", 4: "the multiset of guesses differs",
+        5: "model and implementation agree but the float sanity check f64_arith_ok (hypothesis of C03_reproduced_F64) is false on this run"}
 
 
 def segment_all(passwords):
